@@ -7,7 +7,8 @@ package publicsuffix
 // (the generator's own dump of the list, 10133 rules; the first numICANNRules are the ICANN section). It never looks
 // at the packed nodes/children/text tables that the code under test walks.
 //
-//   VerifC51_lookup  (B) domain = [1..2 (thorough 3) symbolic labels of 1..3 bytes from [a-z0-9-] (first byte not a digit)]
+//   VerifC51_lookup  (B) domain = [0..1 symbolic labels of 1..3 bytes from [a-z0-9-] (first byte not a digit); thorough: 0..2
+//                    below za, ck, uk, jp, com, de, net]
 //                    + a top-level label chosen concretely: every third top-level label of the rule list of at most 3 bytes
 //                    plus za, ck, uk, jp, com, de, net (thorough: every one, about 1450) plus the unlisted "q", "qq", "qqq". Label lengths are concretised; the rules
 //                    under that top-level label whose shape (label count / lengths / leading "*") can match are compared
@@ -294,8 +295,13 @@ func c51pick(label string, n int) int {
 
 func VerifC51_lookup() {
 	tlds := c51lookupTLDs(vfTier() > 0)
-	tld := tlds[c51pick("tld", len(tlds))]
-	L := vfLen("labels", 0, 1+vfTier())
+	ti := c51pick("tld", len(tlds))
+	tld := tlds[ti]
+	maxL := 1
+	if vfTier() > 0 && ti >= 3 && ti < 10 {
+		maxL = 2 // thorough: two symbolic labels below za, ck, uk, jp, com, de, net
+	}
+	L := vfLen("labels", 0, maxL)
 	labels := make([]string, L, L+1)
 	for i := range labels {
 		labels[i] = c51label("label", vfLen("len", 1, 3), i == 0)
